@@ -11,6 +11,8 @@ import (
 
 func sp(s string) *string { return &s }
 
+func i64(v int64) *int64 { return &v }
+
 func (c *Check) newPlan(batch string, run int, seed uint64, kernel string) *plan.Plan {
 	return &plan.Plan{Format: plan.Format, Property: c.prop, Batch: batch, Seed: seed, Run: run, Kernel: kernel, Sink: "null",
 		MapOrder: plan.MapOrder{Default: "sorted"}, ChildOrder: "canonical"}
@@ -37,6 +39,13 @@ func (c *Check) corpus(n int) []gen.GenDoc {
 	for i := 0; len(docs) < n; i++ {
 		d := gen.Document(uint64(0xC0FFEE + i*7919))
 		docs = append(docs, d)
+	}
+	// a deterministic sample of harvested fragments joins the corpus
+	hr := gen.NewRand(0x4a7)
+	for i := 0; i < n/4; i++ {
+		if d, ok := gen.HarvestedDoc(hr); ok {
+			docs = append(docs, d)
+		}
 	}
 	for _, d := range docs {
 		c.noteDoc(d)
@@ -259,6 +268,14 @@ func (c *Check) randC11(r *gen.Rand, run int, seed uint64) *plan.Plan {
 			o := gen.RandOpt(r, "o"+id, d.URL)
 			o.Flags = 0
 			p.Options = append(p.Options, o)
+			// the neighbouring page of the same site: same directory, other last segment
+			if d.URL != "" && strings.HasPrefix(d.URL, "http") {
+				so := o
+				so.ID = "s" + id
+				so.Nil = false
+				so.URL = sp(gen.SiblingURL(r, d.URL))
+				p.Options = append(p.Options, so)
+			}
 		}
 		nops := r.Range(5, 30)
 		if c.tier == "thorough" {
@@ -268,7 +285,10 @@ func (c *Check) randC11(r *gen.Rand, run int, seed uint64) *plan.Plan {
 		for i := 0; i < nops; i++ {
 			di := r.Intn(nd)
 			id := fmt.Sprintf("d%d", di)
-			opt := "o" + fmt.Sprintf("d%d", r.Intn(nd)) // options of another document: any options with any document
+			opt := p.Options[r.Intn(len(p.Options))].ID // any options with any document (own, another document's, a sibling page's)
+			if r.Bool() {
+				opt = "o" + id
+			}
 			switch r.Intn(8) {
 			case 0, 1, 2:
 				ops = append(ops, plan.Op{Op: "Apply", Tree: "t" + id, Opt: opt})
@@ -525,6 +545,11 @@ func (c *Check) fixedC01() []*plan.Plan {
 		{plan.NetPlan{Status: 200, CType: nil, StallAt: -1}, 50},
 		{plan.NetPlan{Status: 200, CType: &ct, StallAt: -1, Body: &plan.ReaderPlan{Chunks: []int{1}, FaultAt: n / 3, FaultKind: "err:reset"}}, 0},
 		{plan.NetPlan{Status: 200, CType: &ct, StallAt: 0, StallUs: 2_000_000_137}, 1},
+		{plan.NetPlan{Status: 200, CType: &ct, StallAt: -1, CLen: i64(int64(n))}, 0},
+		{plan.NetPlan{Status: 200, CType: &ct, StallAt: -1, CLen: i64(int64(n / 2))}, 0},
+		{plan.NetPlan{Status: 200, CType: &ct, StallAt: -1, CLen: i64(int64(n + 100))}, 0},
+		{plan.NetPlan{Status: 200, CType: &ct, StallAt: -1, CLen: i64(1<<63 - 1)}, 1_000},
+		{plan.NetPlan{Status: 200, CType: &ct, StallAt: -1, CLen: i64(0)}, 0},
 	}
 	for _, sink := range []string{"null", "full"} {
 		p := c.newPlan("transport", run, 0, "bubble")
@@ -798,6 +823,12 @@ func (c *Check) racePlan(batch string, run int, seed uint64, docs []gen.GenDoc, 
 		u := docs[0].URL
 		if u == "" {
 			u = "http://example.com/story/page/2"
+		}
+		switch r.Intn(4) {
+		case 0:
+			u += "#comments" // a shared URL value with every component populated
+		case 1:
+			u = gen.Pick(r, gen.URLVariants(u))
 		}
 		p.Options = append(p.Options, optWithURL("os", u, uint(r.Intn(2)), flagsFor(0)))
 	}
